@@ -1,20 +1,25 @@
 #!/bin/sh
 # Self-test of the machinery (not a registered check): every seeded change must be reported
-# by the check(s) recorded in its meta.json, every harmless refactoring must leave all
-# checks quiet. Works on /repo itself: each patch is applied, checked and undone.
+# by the check(s) recorded in its meta.json (detected_by), every harmless refactoring must
+# leave all checks quiet. Works on /repo itself: each patch is applied, checked and undone.
 cd /verif || exit 2
 fail=0
-for d in seeded/*/; do
+for d in $(ls -d seeded/*/ | sort -V); do
   id=$(basename "$d"); prop=${id%-*}
   if [ -n "$(git -C /repo status --porcelain)" ]; then echo "/repo not clean"; exit 2; fi
+  props=$(python3 -c "import json;print(' '.join(json.load(open('/verif/$d/meta.json')).get('detected_by') or []))")
+  expect=1; [ -z "$props" ] && { expect=0; props=$prop; }
   git -C /repo apply "/verif/$d/patch.diff" || { echo "$id: patch does not apply"; fail=1; continue; }
-  /verif/bin/verif check "$prop" --tier quick > /tmp/selftest.out 2>&1; rc=$?
+  det=""; n=0
+  for p in $props; do
+    /verif/bin/verif check "$p" --tier quick > /tmp/selftest.out 2>&1; rc=$?
+    if [ $rc -eq 1 ]; then det="$det $p"; n=$((n + $(grep -c ^VIOLATION /tmp/selftest.out))); fi
+  done
   git -C /repo checkout -- .
-  expect=$(python3 -c "import json;print(1 if json.load(open('/verif/$d/meta.json')).get('detected_by') else 0)")
-  if [ $rc -eq 1 ]; then echo "$id: detected ($(grep -c ^VIOLATION /tmp/selftest.out) violation lines)";
+  if [ -n "$det" ]; then echo "$id: detected by$det ($n violation lines)";
   elif [ "$expect" = 0 ]; then echo "$id: not detected (recorded as a known miss)";
-  else echo "$id: NOT DETECTED (exit $rc)"; fail=1; fi
+  else echo "$id: NOT DETECTED"; fail=1; fi
 done
-python3 tools/harmless_eval.py selftest/harmless/*.diff || fail=1
+python3 tools/harmless_eval.py $(ls selftest/harmless/*.diff | sort -V) || fail=1
 rm -f /tmp/selftest.out
 exit $fail
